@@ -19,7 +19,8 @@ EXPLANATION = (
     "answered: no accepting path of a broker request handler bypasses the send of its reply unless the requester is gone or gave no serial (QueryIntrospection may "
     "instead be recorded as pending under its serial, to be answered when the queried connection replies); (R8) no state mutation in a client message "
     "handler is control-dependent on whether the local waiter of a reply still exists (delivery of the result through its oneshot channel); (R9) in reply handlers whose message carries a result, assertions about the client's own registries are made "
-    "only under the broker's positive answer (sibling agreement; found F4). NOT decided: absence of deadlock or lost wake-ups, "
+    "only under the broker's positive answer (sibling agreement; found F4); (R10) the fan-out obligations of C10-R3 / C04-R1 (every entitled party is served), re-evaluated "
+    "because a gap there is an awaited notification that never arrives. NOT decided: absence of deadlock or lost wake-ups, "
     "bounded-FIFO behaviour, result consistency under schedules."
 )
 
@@ -113,6 +114,27 @@ def run(rep):
                       "this handler asserts something about the client's own registry (%s) whatever the broker answered; its siblings do so only under a positive answer. A drop-driven request that carried an unconfirmed belief (e.g. a channel end marked claimed before the claim failed) makes the client panic" % reg[0][:120],
                       line=c.line, detail={"guards": gs[-4:]})
     rep.floor("C06-R9", "registry assertions in reply handlers with a result", n9, 4)
+
+    # ---- R10 notifications an application awaits are actually sent --------------------------------------------------
+    # `BusListener::next_event`, discoverers and lifetimes await EmitBusEvent; proxies await EmitEvent. Whether the broker sends
+    # them to every party entitled to them is decided by C10-R3 / C04-R1 (fan-out must-pass rules); a gap there is an awaited
+    # operation that never completes, so those obligations are re-evaluated here.
+    if not rep.matrix:
+        import importlib
+        for (mod, rules, insts) in (("c10", ("C10-R3",), ("every-matching-listener-served", "dedup-test", "dedup-insert", "dedup-monotone", "matches-new-event")),
+                                    ("c04", ("C04-R1",), ("every-subscriber-served", "subscription-predicate"))):
+            sub = engine.Report(rep.prop, rep.tier, rep.seed)
+            sub.matrix = "sub"   # floors of the other property are its own business
+            importlib.import_module(mod).run(sub)
+            nn = 0
+            for rl in rules:
+                nn += sub.per_rule.get(rl, {"discharged": 0})["discharged"]
+            for _ in range(nn):
+                rep.ok("C06-R10", "%s:premise" % rules[0], None, nontrivial=False, sample=False)
+            rep.floor("C06-R10", "fan-out obligations taken from %s" % rules[0], nn, 4)
+            for v in sub.violations:
+                if v["rule"] in rules and any(v["instance"].startswith(i_) for i_ in insts):
+                    rep.fail("C06-R10", v["def"], "%s:%s" % (v["rule"], v["instance"]), "a notification an application awaits is not sent to every party entitled to it: " + v["msg"].replace("[cfg sub] ", ""), line=v.get("line"))
 
     # ---- R1 direction tables -----------------------------------------------------------------------
     rep.check(bd is not None and not binfo["wildcard"] and len(bd) >= 63, "C06-R1", bhm.def_, "broker-dispatch-exhaustive", "the broker's dispatch must name all message kinds without wildcard", detail={"kinds": len(bd or {})})
